@@ -68,7 +68,7 @@ def _reattach(create_sc: bool, sc_exists: bool, si: int) -> bool:
     return True
 
 
-def _ladder(di: int, si: int, create_db: bool, create_sc: bool, db_exists: bool, sc_exists: bool, with_path: bool, other: bool):
+def _ladder(di: int, si: int, create_db: bool, create_sc: bool, db_exists: bool, sc_exists: bool, with_path: bool, other: bool, elsewhere: bool = False):
     eng = Engine()
     db_path = "/data/fs" if with_path else None
     fs = instance(eng, create_db, create_sc, db_path)
@@ -76,6 +76,10 @@ def _ladder(di: int, si: int, create_db: bool, create_sc: bool, db_exists: bool,
     eng.add_db("DB2")
     eng.add_schema("DB2", "S2")
     eng.add_table("DB2", "S2", "KEEP")
+    if elsewhere:
+        # ANOTHER database already has a schema of the requested name: that says nothing about this database
+        eng.add_schema("DB2", "S1")
+        eng.add_table("DB2", "S1", "ELSEWHERE")
     if db_exists:
         eng.add_db("DB1", file="/data/fs/DB1.db" if with_path else ":memory:")
         if sc_exists:
@@ -150,17 +154,17 @@ def _ladder(di: int, si: int, create_db: bool, create_sc: bool, db_exists: bool,
     encodes=["fakesnow.instance.FakeSnow.__init__/connect", "fakesnow.conn.FakeSnowflakeConnection.__init__", "fakesnow.info_schema.creation_sql", "fakesnow.macros.creation_sql"],
     bounds="complete product: database in {absent, DB1, db1, Db1} x schema in {absent, S1, s1, information_schema, INFORMATION_SCHEMA, main} "
     "x create_database_on_connect x create_schema_on_connect x database pre-exists x schema pre-exists x db_path set/unset x "
-    "a second live session present or not; sharded by the database argument",
+    "a second live session present or not x a schema of the requested name present in ANOTHER database or not; sharded by the database argument",
     timeout=(300, 900),
     stubs=["K2 vf.duckstub.Engine (catalog, per-connection schema setting)"],
     shards=(4, 4),
 )
-def connect_ladder(di: int, si: int, create_db: bool, create_sc: bool, db_exists: bool, sc_exists: bool, with_path: bool, other: bool) -> bool:
+def connect_ladder(di: int, si: int, create_db: bool, create_sc: bool, db_exists: bool, sc_exists: bool, with_path: bool, other: bool, elsewhere: bool) -> bool:
     """
     pre: 0 <= di <= 3 and 0 <= si <= 5 and (SHARD < 0 or di == SHARD) and (db_exists or not sc_exists)
     post: _
     """
-    ok, _why = _ladder(di, si, create_db, create_sc, db_exists, sc_exists, with_path, other)
+    ok, _why = _ladder(di, si, create_db, create_sc, db_exists, sc_exists, with_path, other, elsewhere)
     return done(ok)
 
 
@@ -190,7 +194,8 @@ def _real_reattach(a: dict):
 
     with tempfile.TemporaryDirectory() as td:
         fs = FakeSnow(db_path=td)
-        cur = fs.connect(database="db1", schema="s1").cursor()
+        # the earlier process spelled the database name in another letter case: it is still the same database (and file)
+        cur = fs.connect(database="DB1", schema="s1").cursor()
         cur.execute("create table kept (a varchar(7)) comment = 'keep me'")
         cur.execute("insert into kept values ('x')")
         fs.duck_conn.close()
@@ -217,6 +222,10 @@ def _real_ladder(a: dict):
             db_path=td if a["with_path"] else None,
         )
         pre = fs.duck_conn.cursor()
+        if a.get("elsewhere"):
+            from fakesnow.conn import FakeSnowflakeConnection as _C
+
+            _C(fs.duck_conn.cursor(), "DB2", "S1", create_database=True, create_schema=True, db_path=fs.db_path)
         if a["db_exists"]:
             # a pre-existing database as fakesnow itself would have created it
             from fakesnow.conn import FakeSnowflakeConnection
@@ -256,6 +265,13 @@ def _real_ladder(a: dict):
         if conn.schema_set and (cur_db.upper(), cur_sc.upper()) != (D, SC):
             problems.append(f"engine context {cur_db}.{cur_sc}")
         fs.duck_conn.close()
+        if a["with_path"]:
+            import os
+
+            files = sorted(f for f in os.listdir(td) if f.endswith(".db"))
+            want = sorted({"DB1.db"} if (D and exp_db) else set()) if not a.get("elsewhere") else sorted(({"DB1.db"} if (D and exp_db) else set()) | {"DB2.db"})
+            if files != want:
+                problems.append(f"database files {files}, expected {want} (<db_path>/<UPPER NAME>.db)")
         return bool(problems), "; ".join(problems) or "real stack agrees with the options"
 
 
